@@ -183,6 +183,17 @@ def cases(spec, ctx):
                 yield case
 
 
+    # refused container constructions (own stream): what they were handed stays what it was
+    rrng = random.Random(f"C19-refused-container:{ctx.seed}:{i}")
+    for _ in range(6 if ctx.tier == "quick" else 40):
+        yield {"kind": "refused-container", "seed": rrng.randrange(1 << 30), "cls": rrng.choice(["gene", "fcoll", "vcoll"]),
+               "children_on": rrng.choice(["none", "chromosome"]), "n": rrng.randint(2, 4)}
+
+
+    for _ in range(4 if ctx.tier == "quick" else 30):
+        yield {"kind": "fromdict-corrupt", "seed": rrng.randrange(1 << 30)}
+
+
 _MATRIX = {}
 
 
@@ -246,9 +257,115 @@ def run_case(case, ctx):
         ctx.note(sigbase, klass=f"sweep-{case['cls']}-{ps.get('mode')}")
         SW.sweep(ctx, obj, fr, case["aseed"], case.get("budget", 20), sigbase, only=case.get("only"))
         return
+    if case["kind"] == "refused-container":
+        return run_refused_container(case, ctx)
+    if case["kind"] == "fromdict-corrupt":
+        return run_fromdict_corrupt(case, ctx)
     from bcv.core import HarnessError
 
     raise HarnessError(f"unknown kind {case['kind']}")
+
+
+def run_fromdict_corrupt(case, ctx):
+    """The dictionary route into the constructors: the exported dictionary of a valid coding transcript (alone and inside its gene's dictionary)
+    with ONE of the CDS fields emptied or shortened is inconsistent data exactly as the same arguments are for the constructor - refused, never a
+    (non-coding or half-coding) object."""
+    import random
+
+    from inscripta.biocantor.exc import BioCantorException
+    from inscripta.biocantor.gene import GeneInterval, TranscriptInterval, CDSFrame
+    from inscripta.biocantor.location import Strand
+
+    rs = random.Random(case["seed"])
+    strand = rs.choice([Strand.PLUS, Strand.MINUS])
+    a = rs.randint(0, 9)
+    exons = [(a, a + 12), (a + 20, a + 33), (a + 40, a + 52)][: rs.randint(2, 3)]
+    cds = [(exons[0][0] + 3, exons[0][1])] + [tuple(e) for e in exons[1:-1]] + [(exons[-1][0], exons[-1][1] - 2)]
+    tx = TranscriptInterval([e[0] for e in exons], [e[1] for e in exons], strand, cds_starts=[c[0] for c in cds], cds_ends=[c[1] for c in cds],
+                            cds_frames=[CDSFrame.ZERO] * len(cds), transcript_id="t0")
+    gene = GeneInterval([tx], gene_id="g0")
+    td, gd = tx.to_dict(), gene.to_dict()
+    ctx.note(("fromdict-corrupt", len(exons), strand.name), klass="fromdict-corrupt")
+    base, e0 = ctx.call(TranscriptInterval.from_dict, dict(td))
+    ctx.check("ctor.valid-baseline", e0 is None and base.is_coding, key=("from_dict", "transcript"), exc=repr(e0)[:200] if e0 else None)
+    for field in ("cds_starts", "cds_ends", "cds_frames"):
+        for label, val in (("None", None), ("empty", []), ("shortened", list(td[field][:1]))):
+            if label == "shortened" and len(td[field]) == 1:
+                continue
+            for route in ("transcript", "gene"):
+                bad = dict(td, **{field: val})
+                if route == "transcript":
+                    res, exc = ctx.call(TranscriptInterval.from_dict, bad)
+                else:
+                    res, exc = ctx.call(GeneInterval.from_dict, dict(gd, transcripts=[bad]))
+                ok = isinstance(exc, (BioCantorException, ValueError))
+                ctx.check("ctor.refuses", ok, key=("from_dict", route, field, label), field=field, value=val, route=route,
+                          built=None if res is None else type(res).__name__,
+                          is_coding=getattr(res, "is_coding", None) if res is not None else None, exc=repr(exc)[:200] if exc else None)
+
+
+def run_refused_container(case, ctx):
+    """GeneInterval / FeatureIntervalCollection / VariantIntervalCollection(children, parent_or_seq_chunk_parent=P) where P's sequence is too short
+    for the container (its last child ends beyond it): refused with a documented exception; every child handed over - a valid object of its own,
+    parentless or living on the real chromosome - answers afterwards what it answered before (dictionary form, parent, sequence)."""
+    import random
+
+    from inscripta.biocantor.exc import BioCantorException
+    from inscripta.biocantor.gene import GeneInterval, TranscriptInterval, FeatureInterval, FeatureIntervalCollection
+    from inscripta.biocantor.gene.variants import VariantInterval, VariantIntervalCollection
+    from inscripta.biocantor.location import Strand
+    from inscripta.biocantor.parent import Parent, SequenceType
+    from inscripta.biocantor.sequence import Sequence, Alphabet
+
+    rs = random.Random(case["seed"])
+    n = case["n"]
+    glen = 40 * n + 20
+    genome = "".join(rs.choice("ACGT") for _ in range(glen))
+    short_len = rs.randint(12 + 40 * (n - 2), 40 * (n - 1))     # the first n-1 children fit on the short sequence, the last one does not
+    short = "".join(rs.choice("ACGT") for _ in range(short_len))
+    chrom = Parent(id="chr1", sequence=Sequence(genome, Alphabet.NT_STRICT, id="chr1", type=SequenceType.CHROMOSOME))
+    did = rs.choice(["draft", "chr1"])
+    draft = Parent(id=did, sequence=Sequence(short, Alphabet.NT_STRICT, id=did, type=SequenceType.CHROMOSOME))
+    par = chrom if case["children_on"] == "chromosome" else None
+    strand = rs.choice([Strand.PLUS, Strand.MINUS])
+    kids = []
+    for j in range(n):
+        s = 40 * j + rs.randint(1, 6)
+        e = s + rs.randint(4, 9)
+        if case["cls"] == "gene":
+            kids.append(TranscriptInterval([s, e + 3], [e, e + 9], strand, transcript_id=f"t{j}", parent_or_seq_chunk_parent=par))
+        elif case["cls"] == "fcoll":
+            kids.append(FeatureInterval([s, e + 3], [e, e + 9], strand, feature_name=f"f{j}", parent_or_seq_chunk_parent=par))
+        else:
+            kids.append(VariantInterval(s, s + 1, rs.choice("ACGT"), "SNV", variant_name=f"v{j}", parent_or_seq_chunk_parent=par))
+    order = list(range(n))
+    if rs.random() < 0.3:
+        rs.shuffle(order)
+    listed = [kids[j] for j in order]
+
+    def snap(o):
+        loc = o.chunk_relative_location
+        seq = None
+        if loc.parent is not None and loc.parent.sequence is not None:
+            seq = str(loc.extract_sequence())
+        return {"dict": o.to_dict(), "parent_id": getattr(loc.parent, "id", None), "has_parent": loc.parent is not None, "sequence": seq,
+                "blocks": [(b.start, b.end) for b in loc.blocks], "strand": loc.strand.name}
+
+    before = [snap(o) for o in listed]
+    ctor = {"gene": lambda: GeneInterval(listed, gene_id="g", parent_or_seq_chunk_parent=draft),
+            "fcoll": lambda: FeatureIntervalCollection(listed, feature_collection_id="fc", parent_or_seq_chunk_parent=draft),
+            "vcoll": lambda: VariantIntervalCollection(listed, variant_collection_id="vc", parent_or_seq_chunk_parent=draft)}[case["cls"]]
+    ctx.note(("refused-container", case["cls"], case["children_on"], n), klass="refused-container-" + case["cls"])
+    res, exc = ctx.call(ctor)
+    ok = ctx.check("ctor.refuses", isinstance(exc, (BioCantorException, ValueError)), key=("container-on-too-short-parent", case["cls"]), cls=case["cls"],
+                   got=repr(res)[:120], exc=repr(exc)[:200] if exc else None, short_len=short_len)
+    if not ok:
+        return
+    for j, (o, b) in enumerate(zip(listed, before)):
+        a, e = ctx.call(snap, o)
+        ctx.check("api.refusal-stable", e is None and a == b, key=("refused-container-changed-its-argument", case["cls"], case["children_on"]),
+                  child=j, n=n, first_difference=next((k for k in b if e is None and a.get(k) != b[k]), None), exc=repr(e)[:200] if e else None,
+                  before={k: v for k, v in b.items() if k != "dict"}, after={k: v for k, v in (a or {}).items() if k != "dict"})
 
 
 # ---------------------------------------------------------------------------------------------------------------
